@@ -120,6 +120,7 @@ pub fn worker_main(sut: &dyn Sut, args: &[String]) -> ! {
             std::process::exit(0)
         }
         Some("history") => crate::props::c18::worker_history(sut, &req),
+        Some("c17judge") => crate::props::c17::worker_judge(sut, &req),
         _ => {
             eprintln!("unknown worker command {args:?}");
             std::process::exit(2)
